@@ -176,3 +176,45 @@ def public_dfxp_leaf_wrapped_q(a, b, ind):
 def public_sami_leaf_wrapped_q(a, b, ind):
     i = 2 if ind else 0
     return _public_sami("\n" + " " * i + text_of(a) + "\n" + " " * i + text_of(b) + "\n" + " " * i)
+
+
+# --- a source line wrap between an inline element and text (known finding C04-wrap-next-to-inline) ---------------
+def wrap_next_to_inline(sami: bool, after: bool, ind: int) -> str:
+    """
+    pre: 0 <= ind <= 2
+    post: _ == ""
+    """
+    import warnings
+    warnings.simplefilter("ignore")
+    from harness.C11_styles import SAMI_DOC, DFXP_DOC, _bs_html
+    from pycaption import SAMIReader
+    from pycaption.dfxp import DFXPReader
+    pad = "" if ind == 0 else (" " if ind == 1 else "   ")
+    el = "<i>a</i>" if sami else '<span tts:fontStyle="italic">a</span>'
+    frag = (el + "\n" + pad + "b c") if after else ("b c\n" + pad + el)
+    want = "a b c" if after else "b c a"
+    if sami:
+        saved = sm.BeautifulSoup
+        sm.BeautifulSoup = _bs_html
+        try:
+            caps = SAMIReader().read(SAMI_DOC % frag).get_captions("en-US")
+        finally:
+            sm.BeautifulSoup = saved
+    else:
+        caps = DFXPReader().read(DFXP_DOC % frag).get_captions("en")
+    got = _collapse(caps[0].get_text()) if caps else ""
+    return "" if got == want else "words on both sides of a source line wrap next to an inline element were joined"
+
+
+def public_wrap_next_to_inline(sami, after, ind):
+    from harness.C11_styles import SAMI_DOC, DFXP_DOC
+    from pycaption import SAMIReader
+    from pycaption.dfxp import DFXPReader
+    import warnings
+    warnings.simplefilter("ignore")
+    pad = " " * (0 if ind == 0 else (1 if ind == 1 else 3))
+    el = "<i>a</i>" if sami else '<span tts:fontStyle="italic">a</span>'
+    frag = (el + "\n" + pad + "b c") if after else ("b c\n" + pad + el)
+    caps = (SAMIReader().read(SAMI_DOC % frag).get_captions("en-US") if sami else DFXPReader().read(DFXP_DOC % frag).get_captions("en"))
+    got = _collapse(caps[0].get_text())
+    return "" if got == ("a b c" if after else "b c a") else f"read {got!r}"
